@@ -1,4 +1,4 @@
-REPO_FIX_COMMITS = ['2d7a94d', '41c6b34', '15c99e7', '0752c0c', '7f84765', 'af57352', 'e33a24d', '5bdc6b3', '08843a4', '3e03bb0', 'd823a64', '3ba8645', '9eda77c', 'f97803c']
+REPO_FIX_COMMITS = ['2d7a94d', '41c6b34', '15c99e7', '0752c0c', '7f84765', 'af57352', 'e33a24d', '5bdc6b3', '08843a4', '3e03bb0', 'd823a64', '3ba8645', '9eda77c', 'f97803c', '7e803d3']
 NOT_APPLICABLE = {}
 CHECKS = {
  'C18': dict(
@@ -76,4 +76,14 @@ CHECKS = {
         'bundle must trace bit-identically and ten paraxial accessors must be identical. Counter-example search.',
   note='Scatter surfaces take only the dictionary clauses; lenses are brought to a state through the public API only.',
   design='3/C19'),
+ 'C13': dict(
+  technique='history-based property testing: Hypothesis-generated interleavings of 20 kinds of tracing / analysis calls '
+            'with history invariants (state snapshot, repeat identity, fresh-twin differential, argument immutability)',
+  level='After every call of a generated history the serialised lens must be unchanged, a repeated call must return '
+        'bit-identical arrays, the first occurrence of a call must equal the same call on a never-used twin lens, caller '
+        'arrays must be unmodified; single-ray vs batch traces agree within the surface tolerance. Counter-example search '
+        'over call interleavings.',
+  note='Deterministic distributions only; bit-identity within one interpreter; histories generated as data (replayable '
+       'JSON) rather than with RuleBasedStateMachine.',
+  design='3/C13'),
 }
